@@ -111,14 +111,14 @@ def execute(case):
         return c03._out(case, probes, ('unexpected_exception', 'preparing checkers for %r raised %s: %s' % (
             hint, type(e).__name__, str(e)[:300]), 'prepare:' + type(e).__name__))
     if case.get('perturb') == 'warm':
-        for ep in entry.ENTRY_POINTS:
+        for ep in prep.entry_points():
             prep.eval(ep, H.build_obj(case['warm_obj']), 0)
         probes['warmed'] = 1
     if any(n >= 2 for n in H.seq_lengths(case['h'], case['x'])):
         probes['multi_item_containers'] = 1
     viol = None
     for draw in case['draws']:
-        for ep in entry.ENTRY_POINTS:
+        for ep in prep.entry_points():
             x = H.build_obj(case['x'])
             out = prep.eval(ep, x, draw)
             probes['draws_evaluated'] += 1
